@@ -180,4 +180,268 @@ example : (PV.merge (.map Path.root [(Path.root, "a".toList)] [.int Path.root 1]
                     (.map Path.root [(Path.root, "b".toList)] [.int Path.root 2])).isOk = true := by
   decide
 
+/-! ### Order independence (two sources) -/
+
+/-- the entries of a struct as (key, value) pairs, in document order -/
+def entriesOf (ks : List (Path × Str)) (vs : List PV) : List (Str × PV) := (keysOf ks).zip vs
+
+/-- **whether two sources can be merged does not depend on which one comes first** -/
+theorem C17_merge_ok_symmetric (p p2 : Path) (ks oks : List (Path × Str)) (vs ovs : List PV)
+    (ha : ks.length = vs.length) (hb : oks.length = ovs.length)
+    (hna : (keysOf ks).Nodup) (hnb : (keysOf oks).Nodup) :
+    (∃ m, PV.merge (.map p ks vs) (.map p2 oks ovs) = .ok m) ↔
+    (∃ m, PV.merge (.map p2 oks ovs) (.map p ks vs) = .ok m) := by
+  rw [(C17_merge_ok_iff p p2 ks oks vs ovs hb hnb).1, (C17_merge_ok_iff p2 p oks ks ovs vs ha hna).1]
+  constructor
+  · intro h k hk hk'; exact h k hk' hk
+  · intro h k hk hk'; exact h k hk' hk
+
+/-- **and when they can, both orders give the same entries up to their order in the struct**:
+    every (key, value) pair of one result is a pair of the other, with the same multiplicity -/
+theorem C17_merge_order_independent (p p2 : Path) (ks oks : List (Path × Str)) (vs ovs : List PV)
+    (ha : ks.length = vs.length) (hb : oks.length = ovs.length) (m1 m2 : PV)
+    (h1 : PV.merge (.map p ks vs) (.map p2 oks ovs) = .ok m1)
+    (h2 : PV.merge (.map p2 oks ovs) (.map p ks vs) = .ok m2) :
+    ∃ k1 v1 k2 v2 q1 q2, m1 = .map q1 k1 v1 ∧ m2 = .map q2 k2 v2 ∧
+      (entriesOf k1 v1).Perm (entriesOf k2 v2) := by
+  obtain ⟨k1, rfl, hk1⟩ := C17_merge_union p p2 ks oks vs ovs hb m1 h1
+  obtain ⟨k2, rfl, hk2⟩ := C17_merge_union p2 p oks ks ovs vs ha m2 h2
+  refine ⟨k1, vs ++ ovs, k2, ovs ++ vs, p, p2, rfl, rfl, ?_⟩
+  unfold entriesOf
+  rw [hk1, hk2]
+  have la : (keysOf ks).length = vs.length := by simpa [keysOf] using ha
+  have lb : (keysOf oks).length = ovs.length := by simpa [keysOf] using hb
+  rw [List.zip_append la, List.zip_append lb]
+  exact List.perm_append_comm
+
+-- Non-vacuity: two disjoint one-key documents merge in both orders
+example : (PV.merge (.map Path.root [(Path.root, "b".toList)] [.int Path.root 2])
+                    (.map Path.root [(Path.root, "a".toList)] [.int Path.root 1])).isOk = true := by
+  decide
+
+/-! ### Order independence (any number of parameter files) -/
+
+/-- a struct document: its path, key entries and values -/
+abbrev Doc := Path × List (Path × Str) × List PV
+def Doc.toPV (d : Doc) : PV := .map d.1 d.2.1 d.2.2
+def Doc.aligned (d : Doc) : Prop := d.2.1.length = d.2.2.length
+def allKeys (ds : List Doc) : List Str := ds.flatMap fun d => keysOf d.2.1
+def allEntries (ds : List Doc) : List (Str × PV) := ds.flatMap fun d => entriesOf d.2.1 d.2.2
+
+theorem merge_ok_iff' (p p2 : Path) (ks oks : List (Path × Str)) (vs ovs : List PV)
+    (hlen : oks.length = ovs.length) :
+    (∃ m, PV.merge (.map p ks vs) (.map p2 oks ovs) = .ok m) ↔
+      (∀ k ∈ keysOf oks, k ∉ keysOf ks) ∧ (keysOf oks).Nodup := by
+  rw [← mergeEntries_ok_iff p2 ks vs oks ovs hlen]
+  simp only [PV.merge]
+  cases hme : mergeEntries p2 ks vs oks ovs with
+  | ok r => exact ⟨fun _ => ⟨r, rfl⟩, fun _ => ⟨_, rfl⟩⟩
+  | err e => exact ⟨fun ⟨m, hm⟩ => (by cases hm), fun ⟨r, hr⟩ => (by cases hr)⟩
+  | panic s => exact ⟨fun ⟨m, hm⟩ => (by cases hm), fun ⟨r, hr⟩ => (by cases hr)⟩
+  | outOfFuel => exact ⟨fun ⟨m, hm⟩ => (by cases hm), fun ⟨r, hr⟩ => (by cases hr)⟩
+
+/-- the left-to-right fold over the parameter files succeeds iff ALL top-level keys are pairwise distinct -/
+theorem go_ok_iff (qs : List Doc) (hq : ∀ d ∈ qs, d.aligned) (p : Path) (ks : List (Path × Str)) (vs : List PV)
+    (hks : (keysOf ks).Nodup) :
+    (∃ m, mergeParams.go (.map p ks vs) (qs.map Doc.toPV) = .ok m) ↔ (keysOf ks ++ allKeys qs).Nodup := by
+  induction qs generalizing ks vs with
+  | nil => simp [mergeParams.go, allKeys, hks]
+  | cons q qs ih =>
+    obtain ⟨p2, oks, ovs⟩ := q
+    have hlen : oks.length = ovs.length := hq (p2, oks, ovs) (by simp)
+    have hq' : ∀ d ∈ qs, d.aligned := fun d hd => hq d (by simp [hd])
+    have hmk := merge_ok_iff' p p2 ks oks vs ovs hlen
+    have hflat : allKeys ((p2, oks, ovs) :: qs) = keysOf oks ++ allKeys qs := by simp [allKeys]
+    rw [hflat]
+    simp only [List.map_cons, mergeParams.go, Doc.toPV]
+    cases hm : PV.merge (.map p ks vs) (.map p2 oks ovs) with
+    | ok m' =>
+      obtain ⟨hdis, hnd⟩ := hmk.mp ⟨m', hm⟩
+      obtain ⟨k', rfl, hk'⟩ := C17_merge_union p p2 ks oks vs ovs hlen m' hm
+      have hk'nd : (keysOf k').Nodup := by
+        rw [hk']; exact List.nodup_append.mpr ⟨hks, hnd, fun a ha b hb hab => hdis b hb (hab ▸ ha)⟩
+      rw [ih hq' k' (vs ++ ovs) hk'nd, hk', List.append_assoc]
+    | err e =>
+      constructor
+      · rintro ⟨m, hm'⟩; cases hm'
+      · intro hn
+        rw [← List.append_assoc] at hn
+        have h1 := (List.nodup_append.mp hn).1
+        obtain ⟨_, hnd, hdis⟩ := List.nodup_append.mp h1
+        obtain ⟨m', hm'⟩ := hmk.mpr ⟨fun k hk hk' => hdis k hk' k hk rfl, hnd⟩
+        rw [hm] at hm'; cases hm'
+    | panic s =>
+      constructor
+      · rintro ⟨m, hm'⟩; cases hm'
+      · intro hn
+        rw [← List.append_assoc] at hn
+        have h1 := (List.nodup_append.mp hn).1
+        obtain ⟨_, hnd, hdis⟩ := List.nodup_append.mp h1
+        obtain ⟨m', hm'⟩ := hmk.mpr ⟨fun k hk hk' => hdis k hk' k hk rfl, hnd⟩
+        rw [hm] at hm'; cases hm'
+    | outOfFuel =>
+      constructor
+      · rintro ⟨m, hm'⟩; cases hm'
+      · intro hn
+        rw [← List.append_assoc] at hn
+        have h1 := (List.nodup_append.mp hn).1
+        obtain ⟨_, hnd, hdis⟩ := List.nodup_append.mp h1
+        obtain ⟨m', hm'⟩ := hmk.mpr ⟨fun k hk hk' => hdis k hk' k hk rfl, hnd⟩
+        rw [hm] at hm'; cases hm'
+
+/-- on success the result holds the entries of every file, in the order the files were given -/
+theorem go_result (qs : List Doc) (hq : ∀ d ∈ qs, d.aligned) (p : Path) (ks : List (Path × Str)) (vs : List PV)
+    (ha : ks.length = vs.length) (m : PV)
+    (h : mergeParams.go (.map p ks vs) (qs.map Doc.toPV) = .ok m) :
+    ∃ k' v', m = .map p k' v' ∧ entriesOf k' v' = entriesOf ks vs ++ allEntries qs := by
+  induction qs generalizing ks vs with
+  | nil =>
+    simp only [List.map_nil, mergeParams.go] at h
+    cases h
+    exact ⟨ks, vs, rfl, by simp [allEntries]⟩
+  | cons q qs ih =>
+    obtain ⟨p2, oks, ovs⟩ := q
+    have hlen : oks.length = ovs.length := hq (p2, oks, ovs) (by simp)
+    have hq' : ∀ d ∈ qs, d.aligned := fun d hd => hq d (by simp [hd])
+    simp only [List.map_cons, mergeParams.go, Doc.toPV] at h
+    cases hm : PV.merge (.map p ks vs) (.map p2 oks ovs) with
+    | ok m' =>
+      rw [hm] at h
+      obtain ⟨k', rfl, hk'⟩ := C17_merge_union p p2 ks oks vs ovs hlen m' hm
+      have ha' : k'.length = (vs ++ ovs).length := by
+        have : (keysOf k').length = (keysOf ks ++ keysOf oks).length := by rw [hk']
+        simpa [keysOf, ha, hlen] using this
+      obtain ⟨k'', v'', rfl, he⟩ := ih hq' k' (vs ++ ovs) ha' h
+      refine ⟨k'', v'', rfl, ?_⟩
+      rw [he]
+      have la : (keysOf ks).length = vs.length := by simpa [keysOf] using ha
+      simp only [entriesOf, hk', allEntries, List.flatMap_cons]
+      rw [List.zip_append la, List.append_assoc]
+    | err e => rw [hm] at h; cases h
+    | panic s => rw [hm] at h; cases h
+    | outOfFuel => rw [hm] at h; cases h
+
+theorem mergeParams_cons (d : Doc) (ds : List Doc) :
+    mergeParams ((d :: ds).map Doc.toPV) =
+      (match mergeParams.go d.toPV (ds.map Doc.toPV) with
+       | .ok m => .ok (some m) | .err e => .err e | .panic s => .panic s | .outOfFuel => .outOfFuel) := by
+  simp only [List.map_cons, mergeParams]; rfl
+
+/-- **the parameter files can be merged iff all their top-level keys are pairwise distinct** (each file being a
+    struct with distinct keys, as the loader produces them) -/
+theorem C17_params_ok_iff (d : Doc) (ds : List Doc) (hq : ∀ x ∈ d :: ds, x.aligned) (hd : (keysOf d.2.1).Nodup) :
+    (∃ m, mergeParams ((d :: ds).map Doc.toPV) = .ok (some m)) ↔ (allKeys (d :: ds)).Nodup := by
+  have hflat : allKeys (d :: ds) = keysOf d.2.1 ++ allKeys ds := by simp [allKeys]
+  rw [hflat, ← go_ok_iff ds (fun x hx => hq x (by simp [hx])) d.1 d.2.1 d.2.2 hd, mergeParams_cons]
+  show _ ↔ ∃ m, mergeParams.go d.toPV (ds.map Doc.toPV) = .ok m
+  cases mergeParams.go d.toPV (ds.map Doc.toPV) with
+  | ok m => exact ⟨fun _ => ⟨m, rfl⟩, fun _ => ⟨m, rfl⟩⟩
+  | err e => exact ⟨fun ⟨m, hm⟩ => (by cases hm), fun ⟨m, hm⟩ => (by cases hm)⟩
+  | panic s => exact ⟨fun ⟨m, hm⟩ => (by cases hm), fun ⟨m, hm⟩ => (by cases hm)⟩
+  | outOfFuel => exact ⟨fun ⟨m, hm⟩ => (by cases hm), fun ⟨m, hm⟩ => (by cases hm)⟩
+
+/-- **every order of the parameter files is as good as any other**: if the files merge in one order they merge in
+    every order, and the merged documents hold the same (key, value) entries (as multisets; only the order of the
+    keys inside the struct follows the order of the files) -/
+theorem C17_params_order_independent (d : Doc) (ds : List Doc) (d' : Doc) (ds' : List Doc)
+    (hperm : (d :: ds).Perm (d' :: ds')) (hq : ∀ x ∈ d :: ds, x.aligned)
+    (hnd : ∀ x ∈ d :: ds, (keysOf x.2.1).Nodup) (m : PV)
+    (h : mergeParams ((d :: ds).map Doc.toPV) = .ok (some m)) :
+    ∃ m', mergeParams ((d' :: ds').map Doc.toPV) = .ok (some m') ∧
+      ∃ p k v p' k' v', m = .map p k v ∧ m' = .map p' k' v' ∧ (entriesOf k v).Perm (entriesOf k' v') := by
+  have hq' : ∀ x ∈ d' :: ds', x.aligned := fun x hx => hq x (hperm.mem_iff.mpr hx)
+  have hd' : (keysOf d'.2.1).Nodup := hnd d' (hperm.mem_iff.mpr (by simp))
+  have hok := (C17_params_ok_iff d ds hq (hnd d (by simp))).mp ⟨m, h⟩
+  have hkp : (allKeys (d :: ds)).Perm (allKeys (d' :: ds')) := List.Perm.flatMap_right _ hperm
+  obtain ⟨m', hm'⟩ := (C17_params_ok_iff d' ds' hq' hd').mpr (hkp.nodup hok)
+  refine ⟨m', hm', ?_⟩
+  -- both results hold the entries of all their files
+  rw [mergeParams_cons] at h hm'
+  cases hg : mergeParams.go d.toPV (ds.map Doc.toPV) with
+  | ok r =>
+    rw [hg] at h
+    cases hg' : mergeParams.go d'.toPV (ds'.map Doc.toPV) with
+    | ok r' =>
+      rw [hg'] at hm'
+      simp only [Outcome.ok.injEq, Option.some.injEq] at h hm'
+      subst h; subst hm'
+      obtain ⟨k, v, rfl, he⟩ := go_result ds (fun x hx => hq x (by simp [hx])) d.1 d.2.1 d.2.2 (hq d (by simp)) r hg
+      obtain ⟨k', v', rfl, he'⟩ := go_result ds' (fun x hx => hq' x (by simp [hx])) d'.1 d'.2.1 d'.2.2 (hq' d' (by simp)) r' hg'
+      refine ⟨d.1, k, v, d'.1, k', v', rfl, rfl, ?_⟩
+      rw [he, he']
+      have e1 : entriesOf d.2.1 d.2.2 ++ allEntries ds = allEntries (d :: ds) := by simp [allEntries]
+      have e2 : entriesOf d'.2.1 d'.2.2 ++ allEntries ds' = allEntries (d' :: ds') := by simp [allEntries]
+      rw [e1, e2]
+      exact List.Perm.flatMap_right _ hperm
+    | err e => rw [hg'] at hm'; cases hm'
+    | panic s => rw [hg'] at hm'; cases hm'
+    | outOfFuel => rw [hg'] at hm'; cases hm'
+  | err e => rw [hg] at h; cases h
+  | panic s => rw [hg] at h; cases h
+  | outOfFuel => rw [hg] at h; cases h
+
+-- Non-vacuity: three one-key files, merged in two different orders
+example : (mergeParams ([((Path.root, [(Path.root, "a".toList)], [PV.int Path.root 1]) : Doc),
+                         (Path.root, [(Path.root, "b".toList)], [PV.int Path.root 2]),
+                         (Path.root, [(Path.root, "c".toList)], [PV.int Path.root 3])].map Doc.toPV)).isOk = true := by
+  decide
+
+/-! ### The whole pipeline: parameter files, then the data file -/
+
+theorem mergedDocument_cons (d : Doc) (ds : List Doc) (data : Doc) :
+    mergedDocument ((d :: ds).map Doc.toPV) data.toPV = mergeParams.go d.toPV ((ds ++ [data]).map Doc.toPV) := by
+  have hgo : ∀ (qs : List Doc) (acc : PV),
+      mergeParams.go acc ((qs ++ [data]).map Doc.toPV) =
+        (match mergeParams.go acc (qs.map Doc.toPV) with
+         | .ok m => m.merge data.toPV | .err e => .err e | .panic s => .panic s | .outOfFuel => .outOfFuel) := by
+    intro qs
+    induction qs with
+    | nil =>
+      intro acc
+      simp only [List.nil_append, List.map_cons, List.map_nil, mergeParams.go]
+      cases acc.merge data.toPV <;> rfl
+    | cons q qs ih =>
+      intro acc
+      simp only [List.cons_append, List.map_cons, mergeParams.go]
+      cases acc.merge q.toPV with
+      | ok m => exact ih m
+      | err e => rfl
+      | panic s => rfl
+      | outOfFuel => rfl
+  unfold mergedDocument
+  rw [mergeParams_cons, hgo ds d.toPV]
+  cases mergeParams.go d.toPV (ds.map Doc.toPV) <;> rfl
+
+/-- **`validate` with parameter files evaluates the disjoint union, or fails**: the parameter files and the data
+    file can be combined iff ALL their top-level keys are pairwise distinct; the document the rules then see holds
+    exactly the entries of every parameter file followed by those of the data file - nothing lost, nothing overridden -/
+theorem C17_merged_document (d : Doc) (ds : List Doc) (data : Doc) (hq : ∀ x ∈ d :: (ds ++ [data]), x.aligned)
+    (hd : (keysOf d.2.1).Nodup) :
+    ((∃ m, mergedDocument ((d :: ds).map Doc.toPV) data.toPV = .ok m) ↔ (allKeys (d :: (ds ++ [data]))).Nodup) ∧
+    (∀ m, mergedDocument ((d :: ds).map Doc.toPV) data.toPV = .ok m →
+      ∃ k v, m = .map d.1 k v ∧ entriesOf k v = allEntries (d :: (ds ++ [data]))) := by
+  rw [mergedDocument_cons]
+  have hq' : ∀ x ∈ ds ++ [data], x.aligned := fun x hx => hq x (List.mem_cons_of_mem _ hx)
+  constructor
+  · have hflat : allKeys (d :: (ds ++ [data])) = keysOf d.2.1 ++ allKeys (ds ++ [data]) := by simp [allKeys]
+    rw [hflat]
+    exact go_ok_iff (ds ++ [data]) hq' d.1 d.2.1 d.2.2 hd
+  · intro m hm
+    obtain ⟨k, v, rfl, he⟩ := go_result (ds ++ [data]) hq' d.1 d.2.1 d.2.2 (hq d (by simp)) m hm
+    exact ⟨k, v, rfl, by rw [he]; simp [allEntries]⟩
+
+/-- without parameter files the rules see the data file itself -/
+theorem C17_merged_document_no_params (data : PV) : mergedDocument [] data = .ok data := rfl
+
+-- Non-vacuity: two parameter files and a data file with distinct keys
+example : (mergedDocument ([((Path.root, [(Path.root, "a".toList)], [PV.int Path.root 1]) : Doc),
+                            (Path.root, [(Path.root, "b".toList)], [PV.int Path.root 2])].map Doc.toPV)
+            (Doc.toPV (Path.root, [(Path.root, "c".toList)], [PV.int Path.root 3]))).isOk = true := by
+  decide
+-- .. and a data file that repeats a parameter's key is an error
+example : (match mergedDocument ([((Path.root, [(Path.root, "a".toList)], [PV.int Path.root 1]) : Doc)].map Doc.toPV)
+            (Doc.toPV (Path.root, [(Path.root, "a".toList)], [PV.int Path.root 1])) with
+           | .err .MultipleValues => true | _ => false) = true := by
+  decide
+
 end Guard.C17
